@@ -201,6 +201,16 @@ AContains(e) ==
        /\ obs' = Obs("contains", props, Judge(e.seg, props, e.res.kind, val, exp, FALSE), exp, e.res)
        /\ Frame
 
+\* Dictionary.Close(): releases the caller's dictionary object. Nothing else may notice: the segment, its
+\* other dictionary objects and every later lookup of the same field behave as before (the following events say so)
+ADictClose(e) ==
+    LET props == {"C08"} \cup KindProp(e.seg) IN
+    /\ e.seg \in DOMAIN segs
+    /\ obs' = Obs("dict_close", props,
+                  IF segs[e.seg].failed THEN (IF e.res.kind \in {"ok", "err"} THEN {} ELSE {"C19"})
+                  ELSE IF e.res.kind = "ok" THEN {} ELSE props, <<>>, e.res)
+    /\ Frame
+
 ExceptSet(x) == {x.docs[k] : k \in DOMAIN x.docs}
 
 CountOf(list, except) == Cardinality({i \in DOMAIN list : list[i].doc \notin except})
@@ -313,7 +323,8 @@ AStored(e) ==
     LET c == segs[e.seg].c
         exp == Take(StoredOf(c, e.n), e.stop)
         val == IF e.res.kind = "ok" THEN e.res.values ELSE <<>>
-        props == {"C06"} \cup KindProp(e.seg) \cup GProp(e) \cup (IF e.nested THEN {"C09"} ELSE {})
+        \* every visit runs on a scratch context from the library's pool (C13: pooling never changes results)
+        props == {"C06", "C13"} \cup KindProp(e.seg) \cup GProp(e) \cup (IF e.nested THEN {"C09"} ELSE {})
     IN /\ e.seg \in DOMAIN segs
        /\ obs' = Obs("stored", props, Judge(e.seg, props, e.res.kind, val, exp, <<>>), exp, e.res)
        /\ Frame
